@@ -218,12 +218,14 @@ class Ctx:
         self.build_harness()
         return os.path.join(self.scratch, "harness-src")
 
-    def vh_run(self, args, timeout=1800, race=False, env_extra=None):
+    def vh_run(self, args, timeout=1800, race=False, env_extra=None, race_target="race"):
         """Run the harness; returns the parsed REPORT object."""
         vh = self.build_harness(race=race)
         env = self.goenv()
         env["VERIF_KNOWN"] = os.path.join(VERIF, "known_findings.json")
         env["VERIF_PID"] = self.pid
+        if race:
+            env["GORACE"] = "halt_on_error=0 history_size=3"
         if env_extra:
             env.update(env_extra)
         t0 = time.time()
@@ -241,9 +243,48 @@ class Ctx:
                                  % (p.returncode, " ".join(args), p.stdout[-2000:], p.stderr[-4000:]))
         rep["_stderr"] = p.stderr[-4000:]
         rep["_wall_s"] = round(time.time() - t0, 1)
+        if race and "WARNING: DATA RACE" in p.stderr:
+            # the race detector is the recorder for accesses to shared memory: each report is a finding
+            first = p.stderr[p.stderr.index("WARNING: DATA RACE"):][:3000]
+            funcs = re.findall(r"^  ([\w./()*\[\]-]+)\(\)$", first, re.M)
+            site = next((f for f in funcs if "go-ipld-prime" in f), funcs[0] if funcs else "?")
+            key = "%s | NoDataRace | data-race" % race_target
+            rep.setdefault("groups", {})[key] = {
+                "count": p.stderr.count("WARNING: DATA RACE"),
+                "first": [{"case": 0, "step": -1, "target": race_target, "rule": "NoDataRace", "class": "data-race",
+                           "detail": "race detector report at %s:\n%s" % (site, first)}]}
         return rep
 
-    def absorb(self, rep, args, label=None, in_flag="-in"):
+    def vh_run_sharded(self, args, nshards=8, timeout=1800):
+        """Run nshards harness processes (-shard i -nshards n) in parallel and merge their reports."""
+        self.build_harness()
+        with ThreadPoolExecutor(max_workers=nshards) as ex:
+            futs = [ex.submit(lambda i=i: self.vh_run(args + ["-shard", str(i), "-nshards", str(nshards)], timeout=timeout))
+                    for i in range(nshards)]
+            reps = [f.result() for f in futs]
+        out = {"family": reps[0].get("family"), "cases": 0, "nontrivial": 0, "checks": 0, "groups": {},
+               "samples": [], "extra": {}, "_wall_s": max(r["_wall_s"] for r in reps), "_stderr": ""}
+        for r in reps:
+            out["cases"] += r.get("cases", 0)
+            out["nontrivial"] += r.get("nontrivial", 0)
+            out["checks"] += r.get("checks", 0)
+            for s in r.get("samples") or []:
+                if len(out["samples"]) < 3:
+                    out["samples"].append(s)
+            for k, g in (r.get("groups") or {}).items():
+                if k in out["groups"]:
+                    out["groups"][k]["count"] += g["count"]
+                    out["groups"][k]["first"] = sorted(out["groups"][k]["first"] + g["first"], key=lambda f: f["case"])[:3]
+                else:
+                    out["groups"][k] = g
+            for k, v in (r.get("extra") or {}).items():
+                if isinstance(v, int):
+                    out["extra"][k] = out["extra"].get(k, 0) + v
+                else:
+                    out["extra"].setdefault(k, v)
+        return out
+
+    def absorb(self, rep, args, label=None, in_flag="-in", race=False, race_target="race"):
         """Account a harness report into the evidence and remember its finding groups."""
         self.evaluations += rep.get("cases", 0)
         self.distinct_nontrivial += rep.get("nontrivial", 0)
@@ -255,13 +296,20 @@ class Ctx:
         ngroups = 0
         for key, g in (rep.get("groups") or {}).items():
             self.groups.append({"key": key, "group": g, "args": list(args), "in_flag": in_flag,
-                                "label": label or rep.get("family")})
+                                "label": label or rep.get("family"), "race": race, "race_target": race_target})
             ngroups += 1
         self.log("replay %s: %d cases (%d non-trivial), %d comparisons, %d disagreement group(s), %.1fs"
                  % (label or rep.get("family"), rep.get("cases", 0), rep.get("nontrivial", 0),
                     rep.get("checks", 0), ngroups, rep.get("_wall_s", 0)))
         if rep.get("extra"):
             self.extra.setdefault(label or rep.get("family"), rep["extra"])
+            nd = rep["extra"].get("divergences")
+            if nd:
+                msg = ("%s: %d behaviour(s) where the code no longer follows the specification step by step "
+                       "(internal divergence, judged on observable facts only); first: %s"
+                       % (label or rep.get("family"), nd, rep["extra"].get("first_divergence")))
+                self.notes.append(msg)
+                print("NOTE: " + msg, flush=True)
 
     # ------------------------------------------------------------- verdicts
     def load_known(self):
@@ -350,8 +398,20 @@ class Ctx:
 
     def reproduce(self, g, w):
         """Re-run the single witness case in a fresh harness process."""
-        if w.get("input") is None or g.get("args") is None:
-            return True  # nothing to isolate (e.g. whole-run findings); already deterministic
+        if g.get("args") is None:
+            return True
+        if w.get("input") is None:
+            # whole-run finding (stress / race detector): run the same command again, twice at most
+            for _ in range(2):
+                try:
+                    rep = self.vh_run(list(g["args"]), timeout=600, race=g.get("race", False),
+                                      race_target=g.get("race_target", "race"))
+                except MachineryError as e:
+                    self.log("reproduction run failed: %s" % e)
+                    return False
+                if g["key"] in (rep.get("groups") or {}):
+                    return True
+            return False
         path = os.path.join(self.scratch, "repro-%d.json" % len(os.listdir(self.scratch)))
         with open(path, "w") as fh:
             fh.write(json.dumps(w["input"]) + "\n")
